@@ -131,6 +131,20 @@ func stepsWorker(req N) (resp N) {
 		out["k"] = "raise"
 		out["msg"] = runErr.Error()
 	}
+	// the same VM evaluates the code a second and a third time (RunCode): -9 = not applicable
+	out["again_sp"] = -9
+	if runErr == nil {
+		for round := 0; round < 2; round++ {
+			ctx2, cancel2 := context.WithTimeout(context.Background(), 5*time.Second)
+			err2 := machine.RunCode(ctx2, code)
+			cancel2()
+			if err2 != nil {
+				out["again_sp"] = -9
+				break
+			}
+			out["again_sp"] = machine.VerifSP()
+		}
+	}
 	out["codes"] = dumpCodes(code)
 	return out
 }
